@@ -1045,6 +1045,20 @@ impl<'a> Gen<'a> {
         } else {
             all.extend(fns);
         }
+        // one program in ten defines a top-level item twice (legal: the later definition wins)
+        if self.p.chance(1, 10) && !all.is_empty() {
+            let i = self.p.usize_below(all.len());
+            let dup = all[i].clone();
+            let at = self.p.usize_below(all.len() + 1);
+            all.insert(at, dup);
+        }
+        // trivia: leading blank lines and comments, multi-line (and nested) block comments between
+        // items; they shift every line number, and line numbers end up in the circuit (panic locations)
+        if self.p.chance(1, 4) {
+            let sep = *self.p.pick(&["\n\n", "\n\n/* note:\n * spans\n * lines\n */\n", "\n/* a /* nested\n comment */\n b */\n\n", "\n// line comment\n"]);
+            let head = *self.p.pick(&["\n", "\n\n\n", "// header\n", "/* header\n   spanning\n   lines */\n", "\n/* x\n y */\n", " \n\t\n/* x\n\n\n y */ "]);
+            return format!("{head}{}\n", all.join(sep));
+        }
         all.join("\n\n") + "\n"
     }
 }
